@@ -1,15 +1,23 @@
 #!/bin/bash
-# Run every kept seeded change against the quick check of the property it breaks (plus any extra
+# Run kept seeded changes against the quick check of the property they break (plus any extra
 # checks given in EXTRA below), record results in seeded/RESULTS.tsv and in each meta.json.
-# /repo must be clean; every patch is reverted after its run.
+#   seed_matrix.sh            all seeds (RESULTS.tsv rewritten)
+#   seed_matrix.sh C14-b ...  only these (their rows in RESULTS.tsv are replaced)
+# /repo must be clean and must not be touched while this runs; do not edit /verif/mc either (every
+# run rebuilds the checkers). Every patch is reverted after its run.
 cd /verif
 declare -A EXTRA=( [C01-b]="C03" [C02-a]="C01 C09" [C08-a]="C05" [C10-a]="C02" [C10-c]="C03" [C10-d]="C06" [C02-f]="C09" [C10-f]="C04" )
-: > seeded/RESULTS.tsv
-for D in seeded/C*/; do
-  SID=$(basename $D)
+if [ $# -eq 0 ]; then
+  : > seeded/RESULTS.tsv
+  LIST=$(ls -d seeded/C*/ | xargs -n1 basename)
+else
+  LIST="$*"
+  for S in $LIST; do sed -i "/^$S\t/d" seeded/RESULTS.tsv; done
+fi
+for SID in $LIST; do
+  D=seeded/$SID/
   PROP=${SID%-*}
   CHECKS="$PROP ${EXTRA[$SID]:-}"
-  # C01-b is a non-termination bug found through the relation family (C03); C01 quick does not reach it
   for C in $CHECKS; do
     git -C /repo diff --quiet || { echo "/repo dirty"; exit 2; }
     git -C /repo apply /verif/${D}patch.diff || { echo -e "$SID\t$C\tPATCH-DOES-NOT-APPLY" >> seeded/RESULTS.tsv; continue; }
@@ -21,15 +29,17 @@ for D in seeded/C*/; do
     echo -e "$SID\t$C\texit=$RC\t$((T1-T0))s\t$CAUSE" >> seeded/RESULTS.tsv
   done
 done
+sort -o seeded/RESULTS.tsv seeded/RESULTS.tsv
 rm -rf replays/*
 python3 - <<'PY'
-import json,collections
+import json,collections,os
 rows=[l.rstrip('\n').split('\t') for l in open('/verif/seeded/RESULTS.tsv')]
 by=collections.defaultdict(list)
 for r in rows:
     if len(r)>=3 and r[2]=='exit=1': by[r[0]].append(r[1])
 for sid in sorted(set(r[0] for r in rows)):
     p=f'/verif/seeded/{sid}/meta.json'
+    if not os.path.exists(p): continue
     m=json.load(open(p)); m['detected_by']=by.get(sid,[]); m['checks_run']=[r[1]+':'+r[2] for r in rows if r[0]==sid]
     json.dump(m,open(p,'w'),indent=1)
 print("detected:",sum(1 for s in set(r[0] for r in rows) if by.get(s)),"of",len(set(r[0] for r in rows)))
